@@ -291,6 +291,14 @@ def r_iso( ctx ):
         srcs = pfind( fn, 'source = rememberable()' )
         if srcs:
             res.ok( src, srcs[0][0], '%s: source = rememberable() created per connection/iteration' % qn )
+            if qn == 'enip_srv_tcp':
+                # one byte stream per connection: the source lives as long as the connection (bytes after a frame belong to the next frame)
+                loops = [ w for w in walk_no_nested( fn ) if isinstance( w, ast.While ) ]
+                inside = [ a for a, m in srcs if loops and any( a is x for x in ast.walk( loops[0] )) ]
+                if inside:
+                    res.bad( src, inside[0], 'source = rememberable() inside the TCP receive loop', 'bytes of following frames that arrived in the same chunk are discarded: pipelined / coalesced requests are lost and the stream desynchronises' )
+                elif loops and pfind( loops[0], 'source.forget()' ):
+                    res.ok( src, srcs[0][0], 'enip_srv_tcp: one source per connection, only its memory is reset per frame' )
             if qn == 'enip_srv_udp':
                 # one socket serves all UDP peers: the parse buffer must be fresh per datagram, i.e. created inside the receive loop
                 loops = [ w for w in walk_no_nested( fn ) if isinstance( w, ast.While ) ]
@@ -306,4 +314,42 @@ def r_iso( ctx ):
             res.ok( src, mach[0], '%s: its own enip_machine instance, held for the connection' % qn )
         else:
             res.bad( src, fn, '%s machine' % qn, 'each connection must construct and hold its own frame machine' )
+    return res
+
+
+@rule( 'R-LOCK-6', props=( 'C09', 'C07' ), floor=10 )
+def r_lock_6( ctx ):
+    """a machine obtained by `with <parser> as m:` is not used after the with block (its state may already belong to another thread)"""
+    res = Result( 'R-LOCK-6' )
+    files = list( QUICK_FILES )
+    if ctx.tier == 'thorough':
+        files = [ f for f in ctx.model.all_python() if f != AUTOMATA ]
+    for rel in files:
+        if not ctx.model.exists( rel ):
+            continue
+        src = ctx.src( rel )
+        for w in ast.walk( src.tree ):
+            if not isinstance( w, ast.With ):
+                continue
+            for it in w.items:
+                if it.optional_vars is None or not isinstance( it.optional_vars, ast.Name ):
+                    continue
+                # only machines: the with body runs <m>.run( source=... )
+                m = it.optional_vars.id
+                runs = [ c for c in ast.walk( w ) if isinstance( c, ast.Call ) and isinstance( c.func, ast.Attribute ) and c.func.attr == 'run'
+                         and dotted( c.func.value ) == m and any( k.arg == 'source' for k in c.keywords ) ]
+                if not runs:
+                    continue
+                fn = src.enclosing( w, ( ast.FunctionDef, ))
+                scope = fn if fn is not None else src.tree
+                inside = set( id( x ) for x in ast.walk( w ))
+                later = [ n for n in ast.walk( scope ) if isinstance( n, ast.Name ) and n.id == m and isinstance( n.ctx, ast.Load )
+                          and id( n ) not in inside and getattr( n, 'lineno', 0 ) > w.end_lineno
+                          and not any( isinstance( a, ast.With ) and any( isinstance( i2.optional_vars, ast.Name ) and i2.optional_vars.id == m for i2 in a.items ) for a in src.ancestors( n )) ]
+                if later:
+                    st = src.enclosing( later[0], ( ast.stmt, )) or later[0]
+                    res.bad( src, later[0], 'use of %r after `with %s as %s:` ended: %s' % ( m, norm_text( it.context_expr )[:40], m, norm_text( stmt_of( src, later[0] ))[:80] ),
+                             'the machine\'s lock has been released: another session may already be running it, so its state (e.g. .terminal) no longer belongs to this parse' )
+                else:
+                    res.ok( src, w, 'machine %r of `with %s` is not touched after the block' % ( m, norm_text( it.context_expr )[:40] ))
     return res
